@@ -420,7 +420,7 @@ class Ry(Rotation):
     def array(self):
         half_theta = self.modules.pi * self.phase
         sin, cos = self.modules.sin(half_theta), self.modules.cos(half_theta)
-        return Tensor.np.array([[cos, -1 * sin], [sin, cos]])
+        return Tensor.np.array([[cos, sin], [-1 * sin, cos]])
 
 
 class Rz(Rotation):
